@@ -277,11 +277,12 @@ class Runner:
                 mixed = [numpy.dtype(m) for m in step["mixed"]]
                 kinds_unsigned = any(m.kind in "ub" for m in mixed)
                 cols = [numpy.abs(c).astype(mixed[i % 3]) if kinds_unsigned and c.dtype.kind not in "b" else c.astype(mixed[i % 3]) for i, c in enumerate(_cols(p))]
-                # the resulting dtype is the first coefficient's (or the dtype argument): keep that term alive
+                # without a dtype argument the result has numpy's common type of all coefficients
                 cols = [numpy.array(c) for c in cols]
-                cols[0].flat[0] = 1
-                expect_dtype = cols[0].dtype
-                explicit = expect_dtype if step["mixed"][0] < step["mixed"][1] else None
+                explicit = cols[0].dtype if step["mixed"][0] < step["mixed"][1] else None
+                expect_dtype = explicit if explicit is not None else numpy.result_type(*cols)
+                if numpy.dtype(expect_dtype).kind in "ub":
+                    cols = [numpy.abs(c) if c.dtype.kind not in "bc" else c for c in cols]
                 keys = [frozenset((n, kk) for n, kk in zip(p["names"], e) if kk) for e in p["exponents"]]
                 return (lambda: numpoly.polynomial_from_attributes(exps, cols, tuple(p["names"]), dtype=explicit)), \
                     Expect(expect_dtype, tuple(p["shape"]), _strip({key: c.astype(expect_dtype) for key, c in zip(keys, cols)})), how, {"mixed": True}
